@@ -170,17 +170,8 @@ def name_kind(f):
     return 'value'      # scalar or list: decided later by the LIST flag
 
 
-def run(c, chk):
-    chk.explanation = EXPLANATION
-    chk.rule('R1.1', 'grammar transitions of the extracted parser table equal the reference token automaton (accept/reject/return/recurse + action)')
-    chk.rule('R1.2', 'every constant that can reach the state variable has a case; the scanner returns no token outside the parser\'s alphabet')
-    chk.rule('R1.3', 'RESET/MODIFIED typestate: defaults set it, "=" sets it, "+=" clears it (lists only), consumers free-and-clear before the first append')
-    chk.rule('R1.4', 'every dispatch on the option type covers the value-carrying enumerators')
-    chk.trusted = ['clang/opt IR', 'reference automaton in lcverif/props/c01.py (from doc/tutorial + property text)']
-    chk.assumptions = ['values are not computed; multi-section order, title merge and nesting depth are not decided']
-    model = pm.ParserModel(c)
-    chk.analysed = {'parser_states': len(model.states), 'reference_states': len(REF)}
-
+def grammar(c, chk, model):
+    """R1.1: the transitions of the extracted parser table against the reference token automaton"""
     # ---- R1.1 ---------------------------------------------------------------------------
     nonnull = model.opt_nonnull_states()
     pair = {'NAME': 0}            # ref state -> impl state
@@ -279,6 +270,21 @@ def run(c, chk):
         chk.fail('R1.1', 'grammar:unreached:%s' % ','.join(sorted(missing)), c.where(model.fn), 'reference states %s are never reached by the implementation' % sorted(missing))
     chk.floor('R1.1 (state, token, kind) comparisons', ncmp, 100)
     chk.extra['state_pairing'] = {k: v for k, v in sorted(pair.items())}
+
+
+
+def run(c, chk):
+    chk.explanation = EXPLANATION
+    chk.rule('R1.1', 'grammar transitions of the extracted parser table equal the reference token automaton (accept/reject/return/recurse + action)')
+    chk.rule('R1.2', 'every constant that can reach the state variable has a case; the scanner returns no token outside the parser\'s alphabet')
+    chk.rule('R1.3', 'RESET/MODIFIED typestate: defaults set it, "=" sets it, "+=" clears it (lists only), consumers free-and-clear before the first append')
+    chk.rule('R1.4', 'every dispatch on the option type covers the value-carrying enumerators')
+    chk.trusted = ['clang/opt IR', 'reference automaton in lcverif/props/c01.py (from doc/tutorial + property text)']
+    chk.assumptions = ['values are not computed; multi-section order, title merge and nesting depth are not decided']
+    model = pm.ParserModel(c)
+    chk.analysed = {'parser_states': len(model.states), 'reference_states': len(REF)}
+
+    grammar(c, chk, model)
 
     # argument text: every store / title / argument takes the token text
     check_token_text(c, chk, model)
@@ -759,7 +765,9 @@ def depends_on(c, chk):
     from . import c03, c04
     chk.rule('R1.8', 'string, escape, substitution and comment decoding equals the reference table (the rules of C03)')
     chk.rule('R1.9', 'value tokens are converted exactly or refused (the rules of C04)')
-    for rid, mod, pid, label in (('R1.8', c03, 'C03', 'token decoding'), ('R1.9', c04, 'C04', 'value conversion')):
+    from . import c12
+    chk.rule('R1.10', 'under the ignore-unknown flag the language has no undeclared names: such items are skipped, silently, whatever their shape (the rules of C12)')
+    for rid, mod, pid, label in (('R1.8', c03, 'C03', 'token decoding'), ('R1.9', c04, 'C04', 'value conversion'), ('R1.10', c12, 'C12', 'undeclared items')):
         sub = report.SubCheck(chk, rid, pid)
         mod.run(c, sub)
         sub.done(label)
